@@ -14,7 +14,8 @@ RULE = ('Twin worlds: the same session configuration is run by the real Backtest
         'uniform over the session. A future-read detector tags every data-source read with the simulation time at '
         'which it was made and decodes the source row of the returned value; a read from a later day triggers a directed '
         'twin that rewrites exactly that row. Non-trivial: the two worlds really diverge after T and >= 1 fill is dated '
-        '<= T; distinct = (config signature, rewrite kind, T).')
+        '<= T; distinct = (config signature, rewrite kind, T).'
+        ' Widened: in 40% of the twins the data source first serves another session (started later) in both worlds; expensive shares whose Adj Close is quoted to cents; zero/negative prices in the rewritten future; Adj Close blank on its own.')
 ASSUMPTIONS = ['the cut is by day, as in the statement (same-day look-ahead is covered by C08, not C07)']
 
 
